@@ -30,7 +30,30 @@ C15 = [
  ("N3-collector-last", "held", [(MOD, "                while let Ok(mut partial_times) = rx.recv() {\n                    times.append(&mut partial_times);\n                }", "                let mut parts = Vec::new();\n                while let Ok(partial_times) = rx.recv() {\n                    parts.push(partial_times);\n                }\n                for mut p in parts.into_iter().rev() {\n                    times.append(&mut p);\n                }")], "negative control: merge in another order, same result"),
 ]
 
-SETS = {"C15": C15}
+
+COORD = "src/geo/coordinates.rs"
+C19 = [
+ ("S1-lat-lon-swapped", "violation", [(MAIN, "        cli_args.latitude.unwrap(),\n        cli_args.longitude.unwrap(),", "        islamic_prayer_times::Latitude::try_from(f64::from(cli_args.longitude.unwrap()).clamp(-90.0, 90.0)).unwrap(),\n        islamic_prayer_times::Longitude::try_from(f64::from(cli_args.latitude.unwrap())).unwrap(),")], "latitude and longitude flags feed each other's field"),
+ ("S2-elevation-ignored", "violation", [(MAIN, "        cli_args.elevation,\n", "        islamic_prayer_times::Elevation::default(),\n")], "--elevation parsed but not used"),
+ ("S3-gmt-sign", "violation", [(MAIN, "        gmt: cli_args.gmt.unwrap(),", "        gmt: islamic_prayer_times::Gmt::try_from(-f64::from(cli_args.gmt.unwrap())).unwrap(),")], "GMT offset negated"),
+ ("S4-end-date-ignored", "violation", [(MAIN, "    let end_date = if let Some(date) = cli_args.end_date {\n        date\n    } else {\n        start_date\n    };", "    let end_date = if let Some(date) = cli_args.end_date {\n        if date > start_date + chrono::Duration::days(27) { start_date + chrono::Duration::days(27) } else { date }\n    } else {\n        start_date\n    };")], "ranges silently capped at 28 days"),
+ ("S5-minutes-not-saved", "violation", [(PARAMS, "    pub minutes: HashMap<Prayer, f64>,", "    #[serde(skip)]\n    pub minutes: HashMap<Prayer, f64>,")], "Params::minutes not persisted: reloading the saved file cannot reproduce the run"),
+ ("S6-defaulted-dates-not-saved", "violation", [(MAIN, "        if let Some(params_file_path) = cli_args.params_file_path {\n            write_params_file(&params_config, &params_file_path);\n        }", "        if let Some(params_file_path) = cli_args.params_file_path {\n            if cli_args.start_date.is_none() && cli_args.end_date.is_none() {\n                let saved = ParamsConfig { params: params_config.params.clone(), location: params_config.location, date_range: None };\n                write_params_file(&saved, &params_file_path);\n            } else {\n                write_params_file(&params_config, &params_file_path);\n            }\n        }")], "defaulted dates saved as 'none': replay after a clock jump computes another day"),
+ ("S7-output-error-swallowed", "violation", [(MAIN, "    serde_json::to_writer(file, &pts_by_date).unwrap_or_else(|_| {\n        panic!(\n            \"Failed to serialize the calculated prayer times as JSON to the file {}\",\n            &output_file\n        )\n    });", "    serde_json::to_writer(file, &pts_by_date).ok();")], "write errors on the output file ignored: exit 0 with a truncated file under ENOSPC/EIO"),
+ ("S8-write-not-write-all", "violation", [(MAIN, "    serde_json::to_writer(file, &pts_by_date).unwrap_or_else(|_| {\n        panic!(\n            \"Failed to serialize the calculated prayer times as JSON to the file {}\",\n            &output_file\n        )\n    });", "    let text = serde_json::to_string(&pts_by_date).unwrap();\n    let mut file = file;\n    let _n = std::io::Write::write(&mut file, text.as_bytes()).unwrap();")], "single write() instead of write_all: truncated output only under a short write"),
+ ("S9-latitude-clamped", "violation", [(COORD, "impl FromStr for Latitude {\n    type Err = ParseError;\n\n    fn from_str(s: &str) -> Result<Self, Self::Err> {\n        Self::parse(s)\n    }", "impl FromStr for Latitude {\n    type Err = ParseError;\n\n    fn from_str(s: &str) -> Result<Self, Self::Err> {\n        match s.parse::<f64>() {\n            Ok(v) if v.is_finite() => Ok(Self(v.clamp(-90.0, 90.0))),\n            _ => Self::parse(s),\n        }\n    }")], "out-of-range --latitude clamped instead of rejected"),
+ ("S10-gmt-file-unvalidated", "violation", [(COORD, "#[derive(Debug, Copy, Clone, PartialEq, Serialize, Deserialize)]\n#[serde(try_from = \"f64\")]\n/// Greenwich Mean Time", "#[derive(Debug, Copy, Clone, PartialEq, Serialize, Deserialize)]\n/// Greenwich Mean Time")], "GMT offset read from a parameter file no longer range-checked"),
+ ("S11-output-created-early", "violation", [(MAIN, "    let cli_args = CliArgs::parse();\n", "    let cli_args = CliArgs::parse();\n    if let Some(p) = &cli_args.output_file_path {\n        File::create(p).ok();\n    }\n")], "output file created before the parameter file is validated"),
+ ("S12-hashmap-output", "violation", [(MAIN, "    serde_json::to_writer(file, &pts_by_date).unwrap_or_else(|_| {", "    let unordered: std::collections::HashMap<_, _> = pts_by_date.iter().collect();\n    serde_json::to_writer(file, &unordered).unwrap_or_else(|_| {")], "output serialised from a HashMap: byte order depends on the process's hash seed"),
+ ("S13-listing-skips-invalid", "violation", [(MAIN, "                println!(\"  {}: Invalid\", pts.0);", "                let _ = pts.0;")], "terminal listing omits entries without a time"),
+ ("S14-stdout-error-ignored", "violation", [(MAIN, "            if pts.1.is_ok() {\n                println!(\"  {}: {}\", pts.0, pts.1.unwrap());", "            if pts.1.is_ok() {\n                use std::io::Write;\n                let _ = writeln!(std::io::stdout(), \"  {}: {}\", pts.0, pts.1.unwrap());")], "stdout write errors ignored: exit 0 with a partial listing under ENOSPC/EIO/EPIPE"),
+ ("S15-params-append", "violation", [(MAIN, "    let file = File::create(&params_file_path).unwrap_or_else(|_| {\n        panic!(\n            \"Failed to create the geographical and calculation parameters file {}\",", "    let file = std::fs::OpenOptions::new().create(true).write(true).open(&params_file_path).unwrap_or_else(|_| {\n        panic!(\n            \"Failed to create the geographical and calculation parameters file {}\",")], "parameter file opened without truncation: a longer earlier file leaves a garbage tail"),
+ ("T1-threshold-0", "held", [(MAIN, "        365,\n", "        0,\n")], "negative control: always parallel; same output (steps flagged as multi-threaded)"),
+ ("T2-pretty-params", "held", [(MAIN, "    serde_json::to_writer(file, &params_config)", "    serde_json::to_writer_pretty(file, &params_config)")], "negative control: parameter file pretty-printed; still round-trips"),
+ ("T3-buffered-output", "held", [(MAIN, "    serde_json::to_writer(file, &pts_by_date).unwrap_or_else(|_| {", "    let mut file = std::io::BufWriter::new(file);\n    serde_json::to_writer(&mut file, &pts_by_date).and_then(|_| std::io::Write::flush(&mut file).map_err(serde_json::Error::io)).unwrap_or_else(|_| {")], "negative control: buffered writer with explicit flush (different syscall pattern, same bytes, errors still fatal)"),
+]
+
+SETS = {"C15": C15, "C19": C19}
 
 def sh(cmd, **kw):
     return subprocess.run(cmd, shell=True, stdout=subprocess.PIPE, stderr=subprocess.STDOUT, text=True, **kw)
